@@ -54,11 +54,16 @@ pub open spec fn fle(x: f64, y: f64) -> bool { x.partial_cmp_spec(&y) == Some(co
 pub open spec fn fge(x: f64, y: f64) -> bool { x.partial_cmp_spec(&y) == Some(core::cmp::Ordering::Greater) || x.partial_cmp_spec(&y) == Some(core::cmp::Ordering::Equal) }
 pub mod fax { use vstd::prelude::*; use vstd::std_specs::ops::*; use vstd::std_specs::cmp::*;
 #[verifier::external_body] pub broadcast proof fn axiom_f64_obeys_cmp() ensures #[trigger] <f64 as PartialOrdSpec<f64>>::obeys_partial_cmp_spec() {}
+// exec float arithmetic is a deterministic function of its operands: r == a.add_spec(b) etc. (results stay uninterpreted)
+#[verifier::external_body] pub broadcast proof fn axiom_f64_obeys_add() ensures #[trigger] <f64 as AddSpec<f64>>::obeys_add_spec() {}
+#[verifier::external_body] pub broadcast proof fn axiom_f64_obeys_sub() ensures #[trigger] <f64 as SubSpec<f64>>::obeys_sub_spec() {}
+#[verifier::external_body] pub broadcast proof fn axiom_f64_obeys_mul() ensures #[trigger] <f64 as MulSpec<f64>>::obeys_mul_spec() {}
+#[verifier::external_body] pub broadcast proof fn axiom_f64_obeys_div() ensures #[trigger] <f64 as DivSpec<f64>>::obeys_div_spec() {}
 #[verifier::external_body] pub broadcast proof fn axiom_f64_mul_total(a: f64, b: f64) ensures #[trigger] a.mul_req(b) {}
 #[verifier::external_body] pub broadcast proof fn axiom_f64_add_total(a: f64, b: f64) ensures #[trigger] a.add_req(b) {}
 #[verifier::external_body] pub broadcast proof fn axiom_f64_sub_total(a: f64, b: f64) ensures #[trigger] a.sub_req(b) {}
 #[verifier::external_body] pub broadcast proof fn axiom_f64_div_total(a: f64, b: f64) ensures #[trigger] a.div_req(b) {}
-pub broadcast group group_f64_total { axiom_f64_obeys_cmp, axiom_f64_mul_total, axiom_f64_add_total, axiom_f64_sub_total, axiom_f64_div_total }
+pub broadcast group group_f64_total { axiom_f64_obeys_cmp, axiom_f64_obeys_add, axiom_f64_obeys_sub, axiom_f64_obeys_mul, axiom_f64_obeys_div, axiom_f64_mul_total, axiom_f64_add_total, axiom_f64_sub_total, axiom_f64_div_total }
 }
 broadcast use fax::group_f64_total;
 '''
